@@ -109,3 +109,40 @@ def outcome(limit: int, fn: t.Callable[..., t.Any], *args: t.Any, kdf_limit: int
 
 def last_steps() -> int:
     return S.count
+
+
+# -- CPU-time backstop for very high-volume harnesses (no line monitoring) -----------------------
+import contextlib
+import signal
+
+
+def _on_vtalrm(signum, frame):  # noqa: ANN001
+    raise BudgetExceeded("CPU-time backstop expired (process CPU time, not wall clock)")
+
+
+@contextlib.contextmanager
+def cpu_guard(seconds: float = 5.0):
+    """Raise BudgetExceeded in the main thread once `seconds` of *process CPU time* have been burnt."""
+    old = signal.signal(signal.SIGVTALRM, _on_vtalrm)
+    signal.setitimer(signal.ITIMER_VIRTUAL, seconds)
+    try:
+        yield
+    finally:
+        signal.setitimer(signal.ITIMER_VIRTUAL, 0)
+        signal.signal(signal.SIGVTALRM, old)
+
+
+def kdf_guarded(kdf_limit: int, fn: t.Callable[..., t.Any], *args: t.Any, **kw: t.Any):
+    """Run fn with only the KDF-call cap active. Returns ('ok', v, kdf) | ('exc', e, kdf) | ('budget', e, kdf)."""
+    install_kdf_counter()
+    S.kdf_calls = 0
+    S.kdf_limit = kdf_limit
+    try:
+        v = fn(*args, **kw)
+        return "ok", v, S.kdf_calls
+    except BudgetExceeded as e:
+        return "budget", e, S.kdf_calls
+    except Exception as e:  # noqa: BLE001
+        return "exc", e, S.kdf_calls
+    finally:
+        S.kdf_limit = 0
